@@ -6,6 +6,8 @@ import CoreDhcp.Props.C04
 import CoreDhcp.Props.C05
 import CoreDhcp.Props.C06
 import CoreDhcp.Props.C07
+import CoreDhcp.Props.C08
+import CoreDhcp.Props.C09
 import CoreDhcp.Props.C11
 import CoreDhcp.Props.C12
 import CoreDhcp.Props.C13
@@ -51,3 +53,6 @@ open CoreDhcp
 #print axioms C13_load_succeeds
 #print axioms C15_holds
 #print axioms C15_has_interface
+#print axioms C08_holds
+#print axioms C09_holds
+#print axioms C09_frame
